@@ -340,6 +340,8 @@ func checkC01(w *World, r *Report) {
 
 	// ---------------------------------------------------------------- vesting escrow
 	vestingObligations(w, r, tm)
+	// a reservation (or any transfer) whose failure is dropped leaves the record written without the coins behind it
+	r.Sub(checkC02, "MSG-PROP")
 }
 
 // innerAmount strips NewCoins(slice{NewCoin(denom, X)}) down to X (or the coin itself).
